@@ -11,6 +11,7 @@ mod par;
 mod recorder;
 mod report;
 mod sched;
+mod storage_util;
 mod script;
 mod tree;
 mod util;
@@ -28,6 +29,8 @@ mod c10;
 mod c11;
 mod c12;
 mod c13;
+mod c14;
+mod c15;
 mod c16;
 mod c17;
 mod c18;
@@ -99,6 +102,8 @@ fn main() {
         "c11" => c11::run(&args, &mut report),
         "c12" => c12::run(&args, &mut report),
         "c13" => c13::run(&args, &mut report),
+        "c14" => c14::run(&args, &mut report),
+        "c15" => c15::run(&args, &mut report),
         "c16" => c16::run(&args, &mut report),
         "c17" => c17::run(&args, &mut report),
         "c18" => c18::run(&args, &mut report),
